@@ -462,7 +462,7 @@ pub fn run(tier: Tier) -> i32 {
     let model_err: u64 = st.counters.iter().filter(|(k, _)| k.starts_with("MODEL_ERROR")).map(|(_, v)| *v).sum();
     rep.guard("every generated call parses in the reference", model_err == 0);
     rep.guard("values are compared (not only errors)", st.nontrivial > 1000);
-    rep.rule = "per builtin, every argument tuple that satisfies its signature over the bounded domains (number/string arrays up to the length bound, strings up to 4 code points over 1-4 byte and combining characters, objects over {a,b,c}, merge tuples, by-function key patterns incl. arrays of 21+ elements with a bounded number of deviating keys), each call at top level (R-fn oracle, ties permissive, element-preserving functions compared textually) and nested in five contexts (R-eval); expref bodies routed through a recording custom function. non-trivial = a value was returned and compared".into();
+    rep.rule = "per builtin, every argument tuple that satisfies its signature over the bounded domains (number/string arrays up to the length bound, strings up to 4 code points over 1-4 byte and combining characters, objects over {a,b,c}, merge tuples, by-function key patterns incl. arrays of 21+ elements with a bounded number of deviating keys), each call at top level (R-fn oracle, ties permissive, element-preserving functions compared textually) and nested in five contexts (R-eval); expref bodies routed through a recording custom function. non-trivial = a value was returned and compared Every call is also evaluated against a null current node (`null` | call, missing.call).".into();
     rep.bounds = json!({"number_array_len": n, "by_function_len": blen, "long_array_lens": lens, "long_array_deviations": dev});
     rep.assumptions = vec!["ties of max/min/max_by/min_by: any element with the extreme key; to_number only on clearly numeric / clearly non-numeric strings; contains(string, non-string) unspecified".into()];
     rep.stats = st;
